@@ -514,9 +514,10 @@ class Engine:
                 if code == 0:
                     self.bodyends[p.jobname] = self.bodyends.get(p.jobname, 0) + 1
                     p.paths["done"].touch()
-                else:
+                elif code != 9:
                     p.paths["failed"].write_text(str(code))
-            if p.paths["pid"].exists():
+            # code 9: the process is killed (SIGKILL, out of memory): no marker, the pid file stays behind
+            if p.paths["pid"].exists() and code != 9:
                 p.paths["pid"].unlink()
             p.code = code
             p.state = "exited"
@@ -913,7 +914,7 @@ class Engine:
                 "failed": bool(paths and paths["failed"].exists()),
                 "pid": pid,
                 "procs": [
-                    (p.state if not p.exited else ("exit0" if p.code == 0 else "exit1"))
+                    (p.state if not p.exited else ("exit0" if p.code == 0 else "killed" if p.code == 9 else "exit1"))
                     for p in self.procs_by_name.get(name, [])
                 ],
                 "lock": self.lock_owner_kind(paths["lock"]) if paths else "free",
